@@ -640,7 +640,7 @@ func ruleC12(c *Ctx, r *Report) {
 	if c.Arch386 {
 		sfx = "@386"
 	}
-	r.floor(rule, 25)
+	r.floor(rule, 15)
 	r.assume("decoder offsets: 0 <= pos <= 2^62 (2^30 on 32-bit): an offset is a value previously returned by a decoder or bounded by a length, never a wrapped integer")
 	r.assume("len(data) <= 2^62 (2^30 on 32-bit); `size` parameters and decoded lengths are unconstrained")
 	posts := map[*ssa.Function]bool{}
